@@ -265,6 +265,10 @@ pub fn build(quick: bool) -> PropRun {
              (Frame::DataFrame(DataFrame { sequence_id: 5, nonce: true, datagrams: vec![Datagram { sequence_id: 9, channel_id: 1, window_parent_lead: 0, channel_parent_lead: 0, fragment_id: 0, fragment_id_last: 0, data: vec![0xA5; 24].into() }] }), 4),
              (sample_frames()[8].clone(), 3), (sample_frames()[6].clone(), 2)]
     };
+    // the connection request is the one control frame that always has the full frame length (it is padded): every single bit (thorough: every
+    // pair of bits) of it, padding included, fed to Frame::read itself
+    let mut direct = direct;
+    direct.push((Frame::HandshakeSynFrame(HandshakeSynFrame { version: uflow::PROTOCOL_VERSION, nonce: 0x1234_5678, max_receive_rate: 1_000_000, max_packet_size: 65_536, max_receive_alloc: 1_000_000 }), if quick { 1 } else { 2 }));
     for (f, k) in direct {
         let b0 = f.write().to_vec(); let nbits = b0.len() * 8;
         // split by first flipped bit
